@@ -253,6 +253,43 @@ def run(ctx):
             if rb.exc is None:
                 rels.append(relations.relate("SameHeavy", rr, text, rb, mt, T=T, with_hyd=True,
                                              meta={"input": name, "motion": {"p": p, "s": s, "t": t}, "pdb": mt, "orig": text}))
+    # the complete hydrogen set of a conformation: default runs, and runs that keep supplied hydrogens (the program's own
+    # hydrogens written into the input, --keep-protons): one parent each, no coincidences, nothing built on top
+    from . import c07
+    hsets, hsmeta = [], []
+    for name, text in structures:
+        if any(ln.startswith("HETATM") for ln in text.splitlines()) and name != "3SGB-subset":
+            continue
+        variants = [(name, text, ["-q"], -1)]
+        htext = c07.with_own_hydrogens(text)
+        if htext:
+            nsup = sum(1 for ln in htext.splitlines() if C.is_atom(ln) and ln[76:78].strip() == "H")
+            variants.append((name + " +own-hydrogens -k", htext, ["-q", "-k"], nsup))
+        for vn, vt, vo, nsup in variants:
+            rv_ = runner.run(vt, vo, write=False)
+            ctx.count()
+            if rv_.exc is not None:
+                ctx.violation(f"run:exception:{vn}", repr(rv_.exc), {"pdb": vt, "optargs": vo})
+                continue
+            for cn in rv_.mol.conformation_names[:1]:
+                conf = rv_.mol.conformations[cn]
+                hs = [a for a in conf.atoms if a.element == "H" and a.res_name.strip() not in ("HOH", "WAT")]
+                hsets.append({"h": [list(observe.key_of(a)) + [len([b for b in a.bonded_atoms if b.element != "H"])] for a in hs],
+                              "supplied": nsup})
+                hsmeta.append({"input": vn, "pdb": vt, "optargs": vo, "hydrogens": len(hs)})
+                ctx.nontriv(("hset", vn))
+    if hsets:
+        tf3 = os.path.join(wd, "hyd_sets.json")
+        json.dump(hsets, open(tf3, "w"))
+        res, viol = tlc.trace_check("Trace_HydSet", ["H_OneParent", "H_Separated", "H_NoneAdded"], tf3, constants={"MinSep": 500}, timeout=1800)
+        ctx.add_tlc(res, "complete hydrogen sets of runs (default and --keep-protons)")
+        ctx.traces += len(hsets)
+        for inv, idxs in sorted(viol.items()):
+            for i in idxs[:2]:
+                m = hsmeta[i]
+                ctx.violation(f"hydrogen-set:{inv}:{'keep-protons' if '-k' in m['optargs'] else 'default'}",
+                              f"{inv} violated by the {m['hydrogens']} hydrogens of {m['input']}", {"pdb": m["pdb"], "optargs": m["optargs"]})
+        ctx.extra["hydrogen_sets_checked"] = len(hsets)
     tf2 = os.path.join(wd, "hyd_runs.json")
     json.dump(hrecs, open(tf2, "w"))
     if hrecs:
